@@ -82,6 +82,7 @@ def gen(tier, seed):
     acc = [k for k in al if "[acc]" in k]
     scenes = NW.gen_scenes(rng, 450 if tier == "quick" else 8000) + NW.gen_prim_scenes(rng, 600 if tier == "quick" else 12000)
     scenes += NW.general_scenes(random.Random(seed * 13 + 2), 200 if tier == "quick" else 4000)      # general relative orientations (float tier)
+    scenes += NW.vertex_to_side_scenes(random.Random(seed * 13 + 3), 150 if tier == "quick" else 3000)  # a vertex facing a curved side
     n = _drive(recs, meta, 0, scenes, rng, al, plain, False)
     # acceleration on: fixed corpus (the thorough corpus extends the quick one)
     prng = random.Random(PINNED_SEED)
